@@ -62,6 +62,17 @@ static var Pt = Cello(Pt,
   Instance(New, Pt_New, NULL), Instance(Assign, Pt_Assign), Instance(Cmp, Pt_Cmp),
   Instance(Hash, Pt_Hash), Instance(Show, Pt_Show, NULL), Instance(C_Int, Pt_C_Int), Instance(C_Float, Pt_C_Float));
 
+/* an owned token: construction and destruction are counted, so that "every object is deleted exactly once"
+   is visible in the transcript of the manual-memory scenarios (op `mm`) */
+struct Tok { int64_t id; };
+static int64_t tok_made = 0, tok_dead = 0, tok_sum = 0;
+static void Tok_New(var self, var args) { struct Tok* t = self; t->id = c_int(get(args, $I(0))); tok_made++; }
+static void Tok_Del(var self) { struct Tok* t = self; tok_dead++; tok_sum += t->id; }
+static int Tok_Show(var self, var out, int pos) { struct Tok* t = self; return print_to(out, pos, "Tok%i", $I(t->id)); }
+static int Tok_Cmp(var a, var b) { int64_t x = ((struct Tok*)a)->id, y = ((struct Tok*)cast(b, type_of(a)))->id; return x < y ? -1 : x > y; }
+static var Tok = Cello(Tok, Instance(New, Tok_New, Tok_Del), Instance(Show, Tok_Show, NULL), Instance(Cmp, Tok_Cmp));
+#define TOKSTAT() P("[%" PRId64 "/%" PRId64 ":%" PRId64 "]", tok_dead, tok_made, tok_sum)
+
 /* the program's own exception objects */
 static var ErrA = CelloEmpty(ErrA);
 static var ErrB = CelloEmpty(ErrB);
@@ -441,6 +452,136 @@ static void op_exec(struct W* w, const char* op) {
       P(" ");
     }
     P("depth=%d", (int)len(current(Exception)));
+    return;
+  }
+  if (strcmp(op, "mm") == 0) {
+    /* manual memory management: every object the scenario makes is deleted exactly once by the program (del of an
+       owner deletes what it owns), with boundary contents: emptied Box, NULL Ref, empty containers, unopened File,
+       unstarted Thread, never locked Mutex.  [dead/made:sum of dead ids] after every step. */
+    int64_t k = A(1), m = A(2);
+    tok_made = tok_dead = tok_sum = 0;
+    var taken[8]; int nt = 0;
+    switch (imod(A(0), 16)) {
+      case 0: {       /* Box: full, emptied, re-pointed */
+        var b = new(Box, new(Tok, $I(k))); P("full"); pv(deref(b)); del(b); TOKSTAT();
+        b = new(Box, new(Tok, $I(k + 1))); var t = deref(b); ref(b, NULL); P("emptied:%d", (int)(deref(b) is NULL)); del(b); TOKSTAT();
+        del(t); TOKSTAT();
+        b = new(Box, new(Tok, $I(k + 2))); t = deref(b); ref(b, new(Tok, $I(k + 3))); del(b); TOKSTAT(); del(t); TOKSTAT();
+        break;
+      }
+      case 1: case 2: {       /* Array / List of Box: some slots emptied, then pop / pop_at / clear / del */
+        var c = imod(A(0), 16) == 1 ? (var)new(Array, Box) : (var)new(List, Box);
+        int64_t n = 1 + imod(m, 6);
+        for (int64_t i = 0; i < n; i++) push(c, new(Tok, $I(k + i)));
+        for (int64_t i = 0; i < n; i++) if (imod(k >> i, 2)) { var sl = get(c, $I(i)); taken[nt++] = deref(sl); ref(sl, NULL); }
+        P("n=%zu,taken=%d", len(c), nt); TOKSTAT();
+        if (len(c) > 0) { pop(c); TOKSTAT(); }
+        if (len(c) > 0) { pop_at(c, $I(0)); TOKSTAT(); }
+        if (imod(m, 2)) { resize(c, 0); TOKSTAT(); }
+        del(c); TOKSTAT();
+        for (int i = 0; i < nt; i++) del(taken[i]);
+        TOKSTAT(); break;
+      }
+      case 3: case 4: {       /* Table / Tree with Box values: rem of an emptied and of a full entry, overwrite, del */
+        var c = imod(A(0), 16) == 3 ? (var)new(Table, Int, Box) : (var)new(Tree, Int, Box);
+        int64_t n = 2 + imod(m, 5);
+        for (int64_t i = 0; i < n; i++) set(c, $I(i), $B(new(Tok, $I(k + i))));
+        var sl = get(c, $I(0)); taken[nt++] = deref(sl); ref(sl, NULL);
+        if (n > 3) { sl = get(c, $I(3)); taken[nt++] = deref(sl); ref(sl, NULL); }
+        rem(c, $I(0)); TOKSTAT();                       /* emptied entry */
+        rem(c, $I(1)); TOKSTAT();                       /* full entry: its token dies */
+        if (n > 2) {      /* overwrite: a Table destructs the value it replaces; a Tree assigns over it, so there the
+                             owner takes the old token out first and deletes it */
+          if (type_of(c) is Table) { set(c, $I(2), $B(new(Tok, $I(k + 100)))); }
+          else { var old = deref(get(c, $I(2))); set(c, $I(2), $B(new(Tok, $I(k + 100)))); del(old); }
+          TOKSTAT();
+        }
+        P("n=%zu", len(c)); del(c); TOKSTAT();
+        for (int i = 0; i < nt; i++) del(taken[i]);
+        TOKSTAT(); break;
+      }
+      case 5: {       /* Ref does not own: NULL Ref, Array of Ref with NULL entries */
+        var t = new(Tok, $I(k)); var r = new(Ref, t); ref(r, NULL); P("null:%d", (int)(deref(r) is NULL)); del(r); TOKSTAT();
+        var a = new(Array, Ref); push(a, $R(t)); push(a, $R(t)); ref(get(a, $I(0)), NULL); pop(a); del(a); TOKSTAT();
+        del(t); TOKSTAT(); break;
+      }
+      case 6: {       /* empty containers of every kind, fresh and cleared */
+        var cs[6]; cs[0] = new(Array, Tok); cs[1] = new(List, Tok); cs[2] = new(Table, Int, Tok); cs[3] = new(Tree, Int, Tok);
+        cs[4] = new(Tuple); cs[5] = new(String);
+        if (imod(m, 2)) { push(cs[0], $(Tok, k)); push(cs[1], $(Tok, k + 1)); set(cs[2], $I(1), $(Tok, k + 2)); set(cs[3], $I(1), $(Tok, k + 3));
+                          for (int i = 0; i < 4; i++) resize(cs[i], 0); }
+        TOKSTAT();
+        for (int i = 0; i < 6; i++) { P("%zu", len(cs[i])); del(cs[i]); }
+        TOKSTAT(); break;
+      }
+      case 7: {       /* containers that own tokens by value: del destructs every element once */
+        var a = new(Array, Tok), l = new(List, Tok), tb = new(Table, Int, Tok), tr = new(Tree, Int, Tok);
+        int64_t n = imod(m, 5);
+        for (int64_t i = 0; i < n; i++) { push(a, $(Tok, k + i)); push(l, $(Tok, k + 10 + i)); set(tb, $I(i), $(Tok, k + 20 + i)); set(tr, $I(i), $(Tok, k + 30 + i)); }
+        if (n > 1) { pop(a); pop_at(l, $I(0)); rem(tb, $I(0)); rem(tr, $I(1)); }
+        TOKSTAT(); del(a); TOKSTAT(); del(l); TOKSTAT(); del(tb); TOKSTAT(); del(tr); TOKSTAT(); break;
+      }
+      case 8: {       /* File: never opened, opened and closed, closed by del */
+        var f = new(File); del(f); P("unopened ");
+        const char* dir = getenv("H_TMPDIR");
+        if (dir) {
+          char path[600]; snprintf(path, sizeof path, "%s/mm_%d.tmp", dir, (int)getpid());
+          f = new(File, $S(path), $S("w")); print_to(f, 0, "%i", $I(k)); sclose(f); del(f); P("closed ");
+          f = new(File, $S(path), $S("r")); var iv = new(Int); scan_from(f, 0, "%i", iv); del(f); P("open:%" PRId64, c_int(iv)); del(iv);
+          remove(path);
+        }
+        break;
+      }
+      case 9: {       /* Thread never started, Thread started and joined; Mutex never locked, locked and unlocked */
+        var fn = $(Function, thr_fn);
+        var t = new(Thread, fn); P("running:%d ", (int)running(t)); del(t);
+        var res = new(Int, $I(0)), nn = new(Int, $I(imod(m, 9))), kk = new(Int, $I(k));
+        t = new(Thread, fn); call(t, res, nn, kk); join(t); P("%" PRId64 " ", c_int(res)); del(t); del(res); del(nn); del(kk);
+        var mx = new(Mutex); del(mx);
+        mx = new(Mutex); lock(mx); unlock(mx); P("try:%d", (int)trylock(mx)); unlock(mx); del(mx);
+        break;
+      }
+      case 10: {      /* heap views own their helpers: Range, Slice, Zip */
+        var r = new(Range, $I(imod(k, 5)), $I(imod(k, 5) + imod(m, 6))); P("["); foreach (i in r) { P("%" PRId64 " ", c_int(i)); } P("]"); del(r);
+        var a = new(Array, Int, $I(k), $I(k + 1), $I(k + 2)), l = new(List, Int, $I(m), $I(m + 1));
+        var sl = new(Slice, a, $I(1)); P("%zu ", len(sl)); del(sl);
+        var z = new(Zip, a, l); P("%zu", len(z)); foreach (p in z) { P(" %" PRId64 ":%" PRId64, c_int(get(p, $I(0))), c_int(get(p, $I(1)))); } del(z);
+        del(a); del(l); break;
+      }
+      case 11: {      /* heap Tuple does not own: elements first, then the tuple; empty tuple */
+        var t = new(Tuple); int64_t n = imod(m, 5);
+        for (int64_t i = 0; i < n; i++) push(t, new(Tok, $I(k + i)));
+        foreach (e in t) { taken[nt++] = e; }
+        del(t); TOKSTAT();
+        for (int i = 0; i < nt; i++) del(taken[i]);
+        TOKSTAT(); break;
+      }
+      case 12: {      /* copy and assign make independent owners; both die once */
+        var a = new(Array, Tok); for (int64_t i = 0; i < 1 + imod(m, 4); i++) push(a, $(Tok, k + i));
+        var b = copy(a); var c = new(Array, Tok); assign(c, a); TOKSTAT();
+        del(a); TOKSTAT(); del(b); TOKSTAT(); del(c); TOKSTAT(); break;
+      }
+      case 13: {      /* raw and root objects */
+        var t1 = new_raw(Tok, $I(k)), t2 = new_root(Tok, $I(k + 1)); var b = new_raw(Box, new_root(Tok, $I(k + 2)));   /* what only raw memory points to must be a root */
+        var a = new_root(List, Box); push(a, new(Tok, $I(k + 3))); push(a, new(Tok, $I(k + 4)));
+        var sl = get(a, $I(1)); taken[nt++] = deref(sl); ref(sl, NULL);
+        del_raw(t1); TOKSTAT(); del_root(t2); TOKSTAT(); del_raw(b); TOKSTAT(); del_root(a); TOKSTAT(); del(taken[0]); TOKSTAT(); break;
+      }
+      case 14: {      /* containers of containers of Box */
+        var outer = new(Array, Array); var in1 = new(Array, Box); var in2 = new(Array, Box);
+        push(in1, new(Tok, $I(k))); push(in1, new(Tok, $I(k + 1))); push(in2, new(Tok, $I(k + 2)));
+        push(outer, in1); push(outer, in2); push(outer, in2);        /* element arrays are copies: the Boxes now share tokens */
+        /* sharing would delete a token twice: empty the inner originals' boxes before they die */
+        foreach (bx in in1) { ref(bx, NULL); } foreach (bx in in2) { ref(bx, NULL); }
+        foreach (bx in get(outer, $I(2))) { ref(bx, NULL); }
+        del(in1); del(in2); TOKSTAT();
+        pop_at(outer, $I(0)); TOKSTAT(); del(outer); TOKSTAT(); break;
+      }
+      default: {      /* numbers and strings */
+        var i1 = new(Int, $I(k)), f1 = new(Float, $F((double)m / 4.0)), s1 = new(String, $S("abc")), s2 = new(String);
+        append(s2, s1); resize(s1, 0); P("%s,%zu", c_str(s2), len(s1)); del(i1); del(f1); del(s1); del(s2); break;
+      }
+    }
     return;
   }
   if (strcmp(op, "sk") == 0) {        /* objects that are not on the heap: stack (alloc_stack) and static (types, exception objects) */
